@@ -108,7 +108,7 @@ ALT_SEMANTICS = [
 ]
 
 
-def classify_event(text, ev, er, extra_env=None, tol=0.0):
+def classify_event(text, ev, er, extra_env=None, tol=0.0, loud_ok=False):
     """Compare one (query, event) execution with the reference.  Returns None if it agrees / is not defined,
     ("skip", why) if the reference does not define it, or a mismatch dict."""
     exp, _ = evaluate_stable(text, ev, extra_env=extra_env)
@@ -125,6 +125,8 @@ def classify_event(text, ev, er, extra_env=None, tol=0.0):
     if exp[0] == "rows":
         if er.end == "ok" and rows_equal(exp[1], obs_rows, tol):
             return None
+        if loud_ok and er.end in LOUD and er.end != "NULLDEREF":
+            return None     # e.g. a negative index: a loud failure is as good as Python's from-the-end value
         symptom = "value-mismatch" if er.end == "ok" else "spurious-fault"
     else:
         if er.end in LOUD and not (er.end == "NULLDEREF" and exp[1] != "nullderef"):
@@ -223,8 +225,17 @@ def build_cases(tier: str):
                     seen.add(text)
                     cases.append(Case(pid, backend, text, md, {"k": k, "ndev": nd}))
                     pid += 1
+        # calls that take arguments, receiver and arguments at different loop depths, under every consumer
+        from mc.lang import argscope
+        nargs = 0
+        for ctx, text in argscope.queries(backend):
+            if text not in seen and (tier != "quick" or backend == "atlas" or ctx in ("sum", "column-2d", "first-receiver")):
+                seen.add(text)
+                nargs += 1
+                cases.append(Case(pid, backend, text, argscope.extra_metadata(text) + md, {"k": "argscope:" + ctx, "ndev": 0}))
+                pid += 1
         derived = sum(len(v) for v in g._memo.values())
-        gen_stats[backend] = {"skeletons": nsk, "programs": len(seen), "derived_subterms": derived,
+        gen_stats[backend] = {"skeletons": nsk, "programs": len(seen), "derived_subterms": derived, "argument_scope_programs": nargs,
                               "bounds": {"k_d0": k0, "k_d1": k1, "k_d2": k2}}
     return cases, gen_stats
 
